@@ -50,6 +50,8 @@ int cmd_mt(int argc, char** argv) {
     while (std::getline(in, line))
         if (!line.empty()) cases.push_back(json::parse(line));
     std::vector<json> results(cases.size());
+    mode_t umask_before = umask(0);
+    umask(umask_before);
     std::atomic<int> ready{0};
     std::atomic<bool> go{false};
     auto worker = [&](int tid) {
@@ -100,6 +102,12 @@ int cmd_mt(int argc, char** argv) {
         fputc('\n', out);
     }
     fclose(out);
+    {
+        // process-wide state the library must leave alone
+        mode_t m = umask(0);
+        umask(m);
+        printf("UMASK %o %o\n", static_cast<unsigned>(umask_before), static_cast<unsigned>(m));
+    }
     printf("DONE %zu\n", cases.size());
     return 0;
 }
